@@ -378,6 +378,25 @@ def firstDiff : List String → List String → Nat → Option (Nat × String ×
   | [], b :: _, i => some (i, "<nothing>", b)
   | a :: as, b :: bs, i => if a = b then firstDiff as bs (i+1) else some (i, a, b)
 
+/-- two callback lines that differ only in what the callback OBSERVED (activity / pending masks): the same handler ran
+with the same lists; observations are outputs, the model's state does not depend on them -/
+def softEqCb (a b : String) : Bool :=
+  match words a, words b with
+  | "cb" :: s1 :: m1 :: k1 :: _ :: _ :: c1, "cb" :: s2 :: m2 :: k2 :: _ :: _ :: c2 =>
+    s1 == s2 && m1 == m2 && k1 == k2 && c1 == c2
+  | _, _ => false
+
+/-- first index where two lists differ other than by a soft callback difference; also the first soft difference -/
+def firstDiffSoft : List String → List String → Nat → Option (Nat × String × String) →
+    Option (Nat × String × String) × Option (Nat × String × String)
+  | [], [], _, soft => (none, soft)
+  | a :: _, [], i, soft => (some (i, a, "<nothing>"), soft)
+  | [], b :: _, i, soft => (some (i, "<nothing>", b), soft)
+  | a :: as, b :: bs, i, soft =>
+    if a = b then firstDiffSoft as bs (i+1) soft
+    else if softEqCb a b then firstDiffSoft as bs (i+1) (soft.orElse (fun _ => some (i, a, b)))
+    else (some (i, a, b), soft)
+
 def finishBlock (st : St) : St × Option String :=
   let st' := { st with inBlock := false, op := [], ds := [], rng := [], expected := [], ret := none,
                         lastOp := (st.op.drop 1).headD "" }
@@ -405,9 +424,12 @@ def finishBlock (st : St) : St × Option String :=
               (st', some s!"event#{i} expected(model)={g.replace " " "_"} got(impl)={x.replace " " "_"} [then model-error {e.replace " " "_"}]")
             | none => (st', some s!"model-error {e}")
           | none =>
-            match firstDiff got st.expected 0 with
-            | some (i, g, e) => (st', some s!"event#{i} expected(model)={g.replace " " "_"} got(impl)={e.replace " " "_"}")
-            | none =>
+            match firstDiffSoft got st.expected 0 none with
+            | (some (i, g, e), _) => (st', some s!"event#{i} expected(model)={g.replace " " "_"} got(impl)={e.replace " " "_"}")
+            | (none, some (i, g, e)) =>
+              -- only observations differ: report, keep the scenario going (the model state is unaffected)
+              (st', some s!"SOFT event#{i} expected(model)={g.replace " " "_"} got(impl)={e.replace " " "_"}")
+            | (none, none) =>
               if !m.w.ds.isEmpty then (st', some s!"model consumed fewer decisions ({m.w.ds.length} left)") else
               match ret, st.ret with
               | some a, some b =>
